@@ -435,6 +435,9 @@ pub fn ladder_worker(construct: &str, depth: usize, stack: Option<usize>) -> i32
     0
 }
 
+/// processor time after which a rung counts as a hang (the slowest terminating rung, the
+/// 16384-link member chain in the dev profile, needs 25 s)
+const HANG_CPU: Duration = Duration::from_secs(150);
 pub struct Ladders {
     chain_cap: usize,
     depths: Vec<usize>,
@@ -482,12 +485,18 @@ impl Ladders {
             depth.to_string(),
             stack.map(|s| s.to_string()).unwrap_or_else(|| "main".to_string()),
         ];
-        let mut res = isolate::run_child(bin, &args, Duration::from_secs(20));
+        if self.depths[d[3] as usize] > chain_cap && depth == chain_cap && self.depths.contains(&chain_cap) {
+            // the capped rung is the rung `chain_cap` of this ladder, which runs on its own
+            acc.eval();
+            acc.count("capped_duplicate_rungs", 1);
+            return;
+        }
+        let mut res = isolate::run_child(bin, &args, HANG_CPU);
         acc.eval();
         let bad = |r: &ChildResult| !matches!(r, ChildResult::Done(s) if !s.starts_with("panic"));
         if bad(&res) {
             // same-case-fails-twice rule
-            let again = isolate::run_child(bin, &args, Duration::from_secs(60));
+            let again = isolate::run_child(bin, &args, HANG_CPU);
             if !bad(&again) {
                 acc.count("nonreproducible_child_failures", 1);
                 res = again;
@@ -513,7 +522,7 @@ impl Ladders {
             }
             ChildResult::Hang => {
                 acc.class("hang");
-                acc.violation(&format!("nesting {} hang", construct), case, "a value or an error".into(), "no result within 60 s".into());
+                acc.violation(&format!("nesting {} hang", construct), case, "a value or an error".into(), format!("no result after {} s of processor time", HANG_CPU.as_secs()));
             }
             ChildResult::Exit(c) => {
                 acc.violation(&format!("nesting {} child-exit", construct), case, "a value or an error".into(), format!("child exit code {}", c));
@@ -560,7 +569,7 @@ pub fn run(t: Tier) -> i32 {
     rep.assumptions = vec![
         "source texts longer than the token bound and operands outside the pool are not explored".into(),
         "cyclic program graphs are explored by C12's check (same oracle)".into(),
-        "hang = no result within 20 s and again within 60 s".into(),
+        "hang = the child consumed 150 s of processor time (the slowest terminating rung needs 25 s) or 3000 s passed on the wall clock, twice".into(),
     ];
     rep.finish()
 }
